@@ -61,6 +61,8 @@ func (j *jsonSubProto) Pack(m erpc.Message) error {
 		return err
 	}
 
+	// the body is embedded in a JSON string: escape backslashes as well as quotes
+	bodyBytes = bytes.Replace(bodyBytes, []byte{'\\'}, []byte{'\\', '\\'}, -1)
 	// join json format
 	s := fmt.Sprintf(format,
 		m.Seq(),
